@@ -2,6 +2,7 @@
 from ..core import *
 from .. import harness, gen, pyref, corr
 from ..curve import *
+from .. import surface
 
 VO = ['Props/C05.vo']
 FILES = ['Props/C05.v', 'Proofs/Ladder.v', 'Proofs/EdwardsLaw.v', 'Proofs/Projective.v', 'Tie/Scalar.v']
@@ -87,5 +88,8 @@ def search(ctx, scale, hints):
                               {'build': b, 'script': [l], 'output': [o], 'reference': list(e)}, {'class': 'smul', 'build': b, 'op': l.split()[0]}))
     return fails
 
+def always(ctx, scale):
+    return surface.c05_msm(ctx, Pool('ark', ctx.rng.fork('surf'), n_rand=3), scale)
+
 def run_check(ctx):
-    run_property(ctx, 'Props.C05', VO, FILES, build_scripts, search, 'C05 (scalar multiplication) is no longer shown to hold')
+    run_property(ctx, 'Props.C05', VO, FILES, build_scripts, search, 'C05 (scalar multiplication) is no longer shown to hold', always=always)
